@@ -1,6 +1,7 @@
 import Zc.Proofs.PostState
 import Zc.Proofs.Listeners
 import Zc.GenFacts.FnCache
+import Zc.GenFacts.FnCacheRun
 import Zc.Model.BrowserCb
 /-! # C05 — record cache: all lookup paths agree with an RFC 6762 §10 reference model
 
@@ -335,9 +336,15 @@ in every store key and value are the same record — what the D4 repair establis
 the hand-written `Cache` model computes what those bodies compute.  The record manager (`Zc.ingest`) and the purge
 (`Zc.expire`) use the cache only through `CacheOps`; four of its six operations are translated code (`resetTtl` and
 `markFlush` mutate record objects that live in both indexes: outside the translated subset, tied by the differential).
-**Not transported**: `ingest`/`expire` themselves are hand-written and the theorems about them are stated over the model's `CacheOps`;
-the lemma "`ingest` over the generated operations = `ingest` over the model operations under `CInv`" (with `CInv` preserved by
-`resetTtl`/`markFlush` as a hypothesis) is not proved here. -/
+**Transported along every history** (`GenFacts/FnCacheRun.lean`): `srcCacheAfter lower evs` is the *generated* `DNSCache` after the
+datagrams and purges `evs`, stepped by `ingest` / `expire` over `srcOps` — `CacheOps` whose `add`, `remove`, `getUnique`, `allRecs` are the
+translated `_async_add`, `_async_remove`, `async_get_unique` and the store iteration, and whose `resetTtl` / `markFlush` (in-place mutation
+of record objects living in both indexes: outside the translated subset) are hand-modelled on the generated representation and proved to
+act as the model's and to keep `CInv` (`residual_ok`).  `srcCacheAfter_abs`: its abstraction is `cacheAfter lower evs` and it satisfies
+`CInv`.  Hence the `_source` twins below: `C05_paths_agree_source`, `C05_purge_exact_source_run` (and `C06_post_state_source`,
+`C06_flush_exact_source`, `C04_live_eq_cache_source` in their files) speak about the generated cache and the translated readers.
+**Still not transported**: `ingest` itself (the loop of `async_updates_from_response`, the listener calls) is a hand-written model of the
+record manager, not translated code; `resetTtl` / `markFlush` as said. -/
 section Tie
 open Zc.Py Zc.GenFn.Cache Zc.GenFacts.FnCache
 
@@ -404,6 +411,65 @@ example :
       (fun o => (o.1, (o.2.entries_with_name id "_x._tcp.local.").map (·.created), (o.2.get id (p 5)).map (·.created)))))
       = some (true, [1000], some 1000) := by
   decide
+
+/-- **The record manager's work on a datagram, and the purge, over the translated cache operations, are the model's** (under `CInv`
+and the residual hypothesis on the two untranslated mutators): so every theorem of this file about `ingest (Cache.ops lower)` /
+`expire (Cache.ops lower)` on `absC s` speaks about the run that calls the translated `_async_add`, `_async_remove`,
+`async_get_unique` and iterates the translated store -/
+theorem C05_ingest_is_source {resetTtlG : DNSCache → Rec → DNSCache}
+    {markFlushG : DNSCache → List (String × Nat × Nat) → List Rec → Ms → DNSCache}
+    (hres : Zc.GenFacts.FnCacheRun.ResidualOk lower resetTtlG markFlushG) (s : DNSCache) (h : CInv lower s) (now : Ms) (recs : List Rec) :
+    (ingest lower (Zc.GenFacts.FnCacheRun.genOps lower resetTtlG markFlushG) s now recs).map (Zc.GenFacts.FnCacheRun.outMap absC)
+        = ingest lower (Cache.ops lower) (absC s) now recs
+    ∧ (expire (Zc.GenFacts.FnCacheRun.genOps lower resetTtlG markFlushG) s now).map (fun p => (absC p.1, p.2))
+        = expire (Cache.ops lower) (absC s) now :=
+  ⟨Zc.GenFacts.FnCacheRun.ingest_gen lower hres s h now recs, Zc.GenFacts.FnCacheRun.expire_gen lower hres s h now⟩
+
+open Zc.GenFacts.FnCacheRun in
+/-- **C05 (lookup paths), for the generated cache and the translated readers.**  After any sequence of response datagrams and purges,
+stepped through the translated cache operations, every translated look-up function returns what the flat reference store returns -/
+theorem C05_paths_agree_source (evs : List Event) (r : Rec) (name : String) (ty cls : Nat) :
+    (srcCacheAfter lower evs).get lower r = Flat.get lower (specAfter lower evs) r
+    ∧ (srcCacheAfter lower evs).async_get_unique lower r = Flat.getUnique lower (specAfter lower evs) r
+    ∧ (srcCacheAfter lower evs).get_by_details lower name ty cls = Flat.getByDetails lower (specAfter lower evs) name ty cls
+    ∧ (srcCacheAfter lower evs).get_all_by_details lower name ty cls = Flat.getAllByDetails lower (specAfter lower evs) name ty cls
+    ∧ (srcCacheAfter lower evs).async_all_by_details lower name ty cls = Flat.getAllByDetails lower (specAfter lower evs) name ty cls
+    ∧ (srcCacheAfter lower evs).entries_with_name lower name = Flat.entriesWithName lower (specAfter lower evs) name
+    ∧ (srcCacheAfter lower evs).entries_with_server lower name = Flat.entriesWithServer lower (specAfter lower evs) name
+    ∧ PyDict.keys ((srcCacheAfter lower evs).async_entries_with_name lower name) = Flat.entriesWithName lower (specAfter lower evs) name
+    ∧ PyDict.keys ((srcCacheAfter lower evs).async_entries_with_server lower name) = Flat.entriesWithServer lower (specAfter lower evs) name
+    ∧ (srcCacheAfter lower evs).names.Nodup
+    ∧ (∀ k, k ∈ (srcCacheAfter lower evs).names ↔ Flat.hasName lower (specAfter lower evs) k) := by
+  obtain ⟨ha, hi⟩ := srcCacheAfter_abs lower evs
+  obtain ⟨r1, r2, r3, r4, r5, r6, r7, r8, r9, r10⟩ := C05_readers_are_source lower (srcCacheAfter lower evs) hi r name ty cls
+  have hp := C05_paths_agree lower evs
+  unfold cacheAfter at hp
+  rw [← ha] at hp
+  refine ⟨?_, ?_, ?_, ?_, ?_, ?_, ?_, ?_, ?_, ?_, ?_⟩
+  · rw [r1]; exact hp.get r
+  · rw [r2]; exact hp.getUnique r
+  · rw [r3]; exact hp.getByDetails name ty cls
+  · rw [r4]; exact hp.getAllByDetails name ty cls
+  · rw [r5]; exact hp.asyncAllByDetails name ty cls
+  · rw [r6]; exact hp.entriesWithName name
+  · rw [r7]; exact hp.entriesWithServer name
+  · rw [r8]; exact hp.asyncEntriesWithName name
+  · rw [r9]; exact hp.asyncEntriesWithServer name
+  · rw [r10]; exact hp.namesNodup
+  · intro k; rw [r10]; exact hp.names k
+
+open Zc.GenFacts.FnCacheRun in
+/-- **C05 (purge), for the translated `async_expire` after any history** stepped through the translated operations: it does not raise,
+reports a permutation of exactly the records of the reference store whose TTL has fully elapsed, and leaves a cache that satisfies the
+representation invariant and holds exactly the others -/
+theorem C05_purge_exact_source_run (evs : List Event) (now : Ms) :
+    ∃ reported s', DNSCache.async_expire lower (srcCacheAfter lower evs) now = .ok (reported, s')
+      ∧ reported.Perm ((specAfter lower evs).filter (fun e => decide (e.created + 1000 * (e.ttl : Int) ≤ now)))
+      ∧ Refines lower (absC s') ((specAfter lower evs).filter (fun e => !(e.isExpired now))) ∧ CInv lower s' := by
+  obtain ⟨ha, hi⟩ := srcCacheAfter_abs lower evs
+  have h := (Refines.empty lower).runEvents (by simp [Flat.WF]) evs
+  have hr : Refines lower (absC (srcCacheAfter lower evs)) (specAfter lower evs) := by rw [ha]; exact h.1
+  exact C05_purge_exact_source lower (srcCacheAfter lower evs) hi (specAfter lower evs) hr h.2 now
 
 end Tie
 
